@@ -19,10 +19,10 @@ type Scope struct {
 	SubTok  *Token    // parent token waiting for this activation
 	live    int       // tokens alive in this scope (incl. nested scopes' waiting parent tokens)
 	// node state, per scope
-	parWait map[string]map[string]int // par gateway -> incoming flow -> waiting tokens
-	parTok  map[string][]*Token       // par gateway -> parked token objects
-	incWait map[string][]*Token       // inclusive gateway -> tokens parked at the join
-	armed   map[string][]*Token       // catch event -> tokens listening
+	parWait     map[string]map[string]int // par gateway -> incoming flow -> waiting tokens
+	parTok      map[string][]*Token       // par gateway -> parked token objects
+	incWait     map[string][]*Token       // inclusive gateway -> tokens parked at the join
+	armed       map[string][]*Token       // catch event -> tokens listening
 	started     bool
 	interrupted bool
 }
